@@ -41,6 +41,7 @@ fn replay<C: CellType>(req: &Value) {
     let mode = match req["alloc"].as_str().unwrap_or("count") {
         "guardl" => galloc::GUARD_LEFT,
         "guardr" => galloc::GUARD_RIGHT,
+        "failtape" => galloc::FAIL_TAPE,
         _ => galloc::FAIL,
     };
     let fail_k = req["failK"].as_u64().map(|x| x as usize).unwrap_or(usize::MAX);
